@@ -15,9 +15,10 @@ _NOTE09 = ("Trusted: Coq 8.16.1 kernel; Flocq 4.1 (IEEE-754 binary64 formalisati
            "OCaml; the hand-written model Descriptor/Physical.v (every operation one round-to-nearest-even IEEE operation, "
            "math.Max/Min special cases as in Go's dim.go), validated against the code on every run; glue. Hardware "
            "assumption: amd64, no fused multiply-add in raw*scale+offset. The generated setter's float->integer conversion "
-           "is modelled as truncation and proved to stay inside the raw range (where Go defines it). Clause 'error below "
-           "one factor step' of the physical round trip is false for exact reals (lemma rt_phys_strict_refuted, e.g. "
-           "scale 0.1 offset -40: 1+1.4e-14 steps); the bound kept by the check is two steps.")
+           "is modelled as truncation and proved to stay inside the raw range (where Go defines it). The clause 'error below "
+           "one factor step' of the physical round trip is false for exact reals (theorem C09_roundtrip_physical_refuted: "
+           "scale 0.1, offset -40, p = -39.6 comes back 1+1.4e-14 steps away); what is proved and checked is the bound of "
+           "two steps (C09_roundtrip_physical_partial); the raw round trip is proved with the bound of one step as stated.")
 
 PROPERTIES = {
     "C08": {
@@ -40,7 +41,9 @@ PROPERTIES = {
                 "fl(fl(r*scale)+offset)), saturation for every non-NaN physical value incl. +-Inf (raw_lo <= FromPhysical(p) "
                 "<= raw_hi, and for L <= 52 the truncated integer lies in the raw range: always encodable), and monotonicity "
                 "of FromPhysical (non-decreasing for positive, non-increasing for negative scale) from monotonicity of IEEE "
-                "rounding. The model is tied to the code by differential runs over signals of every length 1..52, both signs, "
+                "rounding, and for L <= 32 under the hypothesis resolves_f (|offset| <= 2^50*|scale|, magnitudes in "
+                "[2^-960, 2^960]) the round-trip bounds by forward error analysis: raw -> physical -> raw within one step; "
+                "physical -> raw -> physical below two steps (below one step is refuted with a witness). The model is tied to the code by differential runs over signals of every length 1..52, both signs, "
                 "decimal/binary/odd scales of both signs, offsets, absent/one-sided/two-sided ranges; the driver evaluates "
                 "the clause predicates (clamp, rule, saturation/encodable, monotone on ordered pairs, round-trip bounds) on the "
                 "implementation's outputs.",
